@@ -62,16 +62,27 @@ Term == {Nil, A1}
 FlagSets == {{}, {"SIMPLE_GENERATOR"}, {"COST_CONDITIONS"}, {"INTERNED_GENERATOR"}, {"SIMPLE_GENERATOR", "INTERNED_GENERATOR", "COST_CONDITIONS", "LIMIT_SPENDS"},
              {"NO_UNKNOWN_CONDS", "STRICT_ARGS_COUNT", "LIMIT_SPENDS"}}
 
+\* reference-selecting generators: the first spend's parent is block reference k of nr (distinct 32-byte references)
+RefTails == {L(<<QuoteP(Nil), Atom(<<123>>), Nil>>),
+             L(<<QuoteP(L(<<Cons(Op(51), L(<<Atom(Z2), Atom(<<7>>), L(<<Atom(H5)>>)>>))>>)), Atom(<<123>>), Nil>>)}
+RefOthers == {Nil, L(<<L(<<Atom(P2), QuoteP(Nil), Atom(<<0, 200>>), Nil>>)>>)}
+RefsOf(nr) == [i \in 1..nr |-> H(160 + i)]
+RefPicks == {<<"refsel", rt, ro, f, nr, k>> : rt \in RefTails, ro \in RefOthers, f \in FlagSets, nr \in 1..3, k \in 0..3}
+
 Picks == {<<"one", s, t, o, f, nr>> : s \in SpendShapes, t \in Term, o \in Outer, f \in FlagSets, nr \in {0, 1}}
+         \cup RefPicks
          \cup (IF Depth >= 2 THEN {<<"two", s, s2, f>> : s \in SpendShapes, s2 \in Second, f \in FlagSets} ELSE {})
          \cup {<<"none", t, o, f>> : t \in Term, o \in Outer, f \in FlagSets}
 
+IsRef(p) == p[1] = "refsel"
+RefProg(p) == RefSelProg(p[6], p[2], p[3], Nil)
 SpendListOf(p) == CASE p[1] = "one" -> ListWithTail(<<p[2]>>, p[3]) [] p[1] = "two" -> L(<<p[2], p[3]>>) [] p[1] = "none" -> p[2]
 OuterOf(p) == IF p[1] = "two" THEN "proper" ELSE IF p[1] = "one" THEN p[4] ELSE p[3]
-OutOf(p) == LET sl == SpendListOf(p) o == OuterOf(p) IN
+OutOf(p) == IF IsRef(p) THEN RefSelRun(RefProg(p), p[6], RefsOf(p[5]), "SIMPLE_GENERATOR" \in p[4]).res ELSE
+            LET sl == SpendListOf(p) o == OuterOf(p) IN
             CASE o = "proper" -> L(<<sl>>) [] o = "ext" -> L(<<sl, Extra>>) [] o = "atomtail" -> Cons(sl, A1) [] o = "bare" -> sl [] o = "atom" -> A1
 FlagsOf(p) == (IF p[1] = "one" THEN p[5] ELSE p[4]) \cup {"DONT_VALIDATE_SIGNATURE"}
-NRefs(p) == IF p[1] = "one" THEN p[6] ELSE 0
+NRefs(p) == IF p[1] = "one" THEN p[6] ELSE IF p[1] = "refsel" THEN p[5] ELSE 0
 
 FlagSeq(f) == LET RECURSIVE G(_)
                   G(S) == IF S = {} THEN <<>> ELSE LET x == CHOOSE x \in S : TRUE IN <<x>> \o G(S \ {x})
@@ -80,11 +91,12 @@ BigMax == <<2, 143, 166, 174, 0>>
 \* the event the harness would log for this pick, with the oracle answers fixed by definition
 EventOf(p) ==
   LET out == OutOf(p)
-      prog == Cons(A1, out)
+      prog == IF IsRef(p) THEN RefProg(p) ELSE Cons(A1, out)
+      genok == IF IsRef(p) THEN RefSelRun(RefProg(p), p[6], RefsOf(p[5]), "SIMPLE_GENERATOR" \in p[4]).ok ELSE TRUE
       items == IF IsPair(out) THEN Elems(out.l) ELSE <<>>
   IN [prog |-> prog, prog_len |-> SerLen(prog), prefix |-> SubSeq(Ser(prog), 1, 2), nrefs |-> NRefs(p), flags |-> FlagSeq(FlagsOf(p)),
       max |-> BigMax, cpb |-> Of(12000), consts |-> Doms, vk |-> <<GenKey>>,
-      genrun |-> [ok |-> TRUE, cost |-> <<20>>, res |-> out],
+      genrun |-> [ok |-> genok, cost |-> <<20>>, res |-> out],
       runs |-> [i \in DOMAIN items |-> IF HasItems(items[i], 4) THEN OracleRun(items[i].r.l) ELSE [ok |-> FALSE, cost |-> Zero, res |-> Nil]]]
 
 VARIABLES pick, phase
@@ -102,5 +114,11 @@ AcceptedBlockOk == (phase = 1 /\ Res.ok) =>
   /\ Le(Res.cost, BigMax)
   \* the trusted view is well defined: one addition per created coin
   /\ Cardinality(ExpectedAdditions(st)) <= NumAdditions(st)
-Emit == phase = 1 => PrintT(<<"CASE", ToJson([out |-> OutOf(pick), nrefs |-> NRefs(pick), flags |-> FlagSeq(FlagsOf(pick)), ok |-> Res.ok])>>)
+\* reference k beyond the list walks off its end: the generator raises and both paths must reject
+RefSelOk == (phase = 1 /\ IsRef(pick)) =>
+  /\ IsRefSelProg(RefProg(pick))
+  /\ (pick[6] >= pick[5] \/ "SIMPLE_GENERATOR" \in pick[4]) => ~Res.ok
+  /\ (Res.ok => Res.st.ret.spends[1].parent = RefsOf(pick[5])[pick[6] + 1])
+Emit == phase = 1 => PrintT(<<"CASE", ToJson(IF IsRef(pick) THEN [prog |-> RefProg(pick), refsel |-> pick[6], nrefs |-> NRefs(pick), flags |-> FlagSeq(FlagsOf(pick)), ok |-> Res.ok]
+                                             ELSE [out |-> OutOf(pick), nrefs |-> NRefs(pick), flags |-> FlagSeq(FlagsOf(pick)), ok |-> Res.ok])>>)
 =============================================================================
